@@ -22,15 +22,15 @@ func c17PureFamily() (names, texts []string) {
 			"  webhook_configs:\n  - url: 'http://hook.test/x'\n  slack_configs:\n  - api_url: 'http://slack.test/y'\n    channel: '#c'\n"
 	}
 	globals := map[string]string{
-		"plain":            "",
-		"smtp-tls":         "  smtp_tls_config:\n    insecure_skip_verify: true\n    server_name: relay.internal\n",
-		"smtp-no-tls":      "  smtp_require_tls: false\n  smtp_hello: 'am.test'\n",
-		"http-tls":         "  http_config:\n    tls_config:\n      insecure_skip_verify: true\n      server_name: proxy.internal\n    follow_redirects: false\n",
-		"http-proxy":       "  http_config:\n    proxy_url: 'http://proxy.test:3128'\n    enable_http2: false\n",
-		"resolve-timeout":  "  resolve_timeout: 17m\n",
-		"slack-url":        "  slack_api_url: 'http://slack.test/global'\n",
-		"pagerduty-url":    "  pagerduty_url: 'http://pd.test/enqueue'\n  opsgenie_api_url: 'http://og.test/'\n",
-		"smtp-auth":        "  smtp_auth_username: 'u'\n  smtp_auth_password: 'p'\n  smtp_auth_identity: 'i'\n",
+		"plain":           "",
+		"smtp-tls":        "  smtp_tls_config:\n    insecure_skip_verify: true\n    server_name: relay.internal\n",
+		"smtp-no-tls":     "  smtp_require_tls: false\n  smtp_hello: 'am.test'\n",
+		"http-tls":        "  http_config:\n    tls_config:\n      insecure_skip_verify: true\n      server_name: proxy.internal\n    follow_redirects: false\n",
+		"http-proxy":      "  http_config:\n    proxy_url: 'http://proxy.test:3128'\n    enable_http2: false\n",
+		"resolve-timeout": "  resolve_timeout: 17m\n",
+		"slack-url":       "  slack_api_url: 'http://slack.test/global'\n",
+		"pagerduty-url":   "  pagerduty_url: 'http://pd.test/enqueue'\n  opsgenie_api_url: 'http://og.test/'\n",
+		"smtp-auth":       "  smtp_auth_username: 'u'\n  smtp_auth_password: 'p'\n  smtp_auth_identity: 'i'\n",
 	}
 	order := []string{"plain", "smtp-tls", "smtp-no-tls", "http-tls", "http-proxy", "resolve-timeout", "slack-url", "pagerduty-url", "smtp-auth"}
 	for _, k := range order {
